@@ -30,6 +30,9 @@ import (
 type Scenario struct {
 	// Per goroutine a list of operations: "get:<key>", "getmap", "setmap", "sys:<Maven|NPM|PyPI|Other>"
 	Ops [][]string `json:"ops"`
+	// MavenRegs: registries added (sequentially, before the goroutines start) to the shared Maven
+	// registry client that the "mvn:*" operations query.
+	MavenRegs int `json:"maven_regs,omitempty"`
 }
 
 type C16d struct{ rw *sim.RaceWatcher }
@@ -39,13 +42,14 @@ func New() *C16d { return &C16d{rw: sim.NewRaceWatcher()} }
 func (*C16d) ID() string       { return "C16" }
 func (*C16d) CrashProne() bool { return true }
 func (*C16d) Rule() string {
-	return "(d) free-running stress under the race detector: 2-8 real goroutines released together, each performing 1-6 operations on one shared RequestCache (Get on 1-2 keys with instant fetch functions, GetMap followed by iteration of the result, SetMap) and on one shared CombinedNativeClient (lazy per-ecosystem client initialisation via AddRegistries / an unsupported system); schedule NOT simulator-controlled (stated); non-trivial = at least two goroutines touch the same object; a runtime fatal error (concurrent map access) that kills the worker is reported as violation class crash"
+	return "(d) free-running stress under the race detector: 2-8 real goroutines released together, each performing 1-6 operations on one shared RequestCache (Get on 1-2 keys with instant fetch functions, GetMap followed by iteration of the result, SetMap) and on one shared CombinedNativeClient (lazy per-ecosystem client initialisation via AddRegistries / an unsupported system) and on one shared MavenRegistryAPIClient with 0-6 added registries (GetVersions / GetProject with a cancelled context: the client guided remediation's Maven resolver shares between concurrent patch attempts); schedule NOT simulator-controlled (stated); non-trivial = at least two goroutines touch the same object; a runtime fatal error (concurrent map access) that kills the worker is reported as violation class crash"
 }
 
 func (*C16d) Gen(rt *rapid.T, tier string) any {
 	sc := &Scenario{}
 	n := rapid.IntRange(2, 8).Draw(rt, "goroutines")
-	all := []string{"get:k0", "get:k0", "get:k1", "getmap", "getmap", "setmap", "sys:Maven", "sys:NPM", "sys:PyPI", "sys:Other"}
+	all := []string{"get:k0", "get:k0", "get:k1", "getmap", "getmap", "setmap", "sys:Maven", "sys:NPM", "sys:PyPI", "sys:Other", "mvn:versions", "mvn:versions", "mvn:project"}
+	sc.MavenRegs = rapid.IntRange(0, 6).Draw(rt, "maven_regs")
 	for i := 0; i < n; i++ {
 		sc.Ops = append(sc.Ops, rapid.SliceOfN(rapid.SampledFrom(all), 1, 6).Draw(rt, fmt.Sprintf("g%d", i)))
 	}
@@ -79,6 +83,19 @@ func (c *C16d) Run(t *testing.T, scn any) *sim.Outcome {
 		out.Violate("harness", "harness:client", "NewCombinedNativeClient: %v", err)
 		return out
 	}
+	// the registry client guided remediation's Maven resolve client shares between its concurrent
+	// patch attempts; URLs are never contacted (every request carries a cancelled context)
+	mvn, err := datasource.NewMavenRegistryAPIClient(datasource.MavenRegistry{URL: "http://127.0.0.1:1/default", ReleasesEnabled: true})
+	if err != nil {
+		out.Violate("harness", "harness:client", "NewMavenRegistryAPIClient: %v", err)
+		return out
+	}
+	for i := 0; i < sc.MavenRegs; i++ {
+		if err := mvn.AddRegistry(datasource.MavenRegistry{URL: fmt.Sprintf("http://127.0.0.1:1/r%d", i), ID: fmt.Sprint(i), ReleasesEnabled: true}); err != nil {
+			out.Violate("harness", "harness:client", "AddRegistry: %v", err)
+			return out
+		}
+	}
 	cancelled, cancel := context.WithCancel(context.Background())
 	cancel()
 	start := make(chan struct{})
@@ -90,6 +107,9 @@ func (c *C16d) Run(t *testing.T, scn any) *sim.Outcome {
 			obj := "cache"
 			if len(op) > 4 && op[:4] == "sys:" {
 				obj = "client"
+			}
+			if len(op) > 4 && op[:4] == "mvn:" {
+				obj = "maven-registry-client"
 			}
 			if !seen[obj] {
 				seen[obj] = true
@@ -114,6 +134,10 @@ func (c *C16d) Run(t *testing.T, scn any) *sim.Outcome {
 				case len(op) > 4 && op[:4] == "get:":
 					k := op[4:]
 					cache.Get(k, func() (string, error) { return fmt.Sprintf("%s-by-g%d", k, gi), nil })
+				case op == "mvn:versions":
+					mvn.GetVersions(cancelled, "org.example", "thing")
+				case op == "mvn:project":
+					mvn.GetProject(cancelled, "org.example", "thing", "1.0.0")
 				case op == "sys:Maven":
 					cl.AddRegistries(nil)
 				case op == "sys:NPM":
